@@ -473,6 +473,9 @@ func genFormat4(r *gen.RNG, o genOpts) (sub []byte, class string) {
 // genGroups builds format 12 / 13 groups.
 func genGroups(r *gen.RNG, o genOpts) (groups []group, class string) {
 	n := r.Range(1, 10)
+	if r.Chance(1, 25) {
+		n = 0
+	}
 	cur := gen.Pick(r, points32)
 	if o.symbolArea {
 		cur = gen.Pick(r, []uint32{0x20, 0xF000, 0xF020, 0xF100, 0xF120})
@@ -761,6 +764,13 @@ func fixedSpecs(b *baseFont) []SynthSpec {
 		{0x61, 0x7A, 1}, {0x1000041, 0x100005A, 100}})}))
 	out = append(out, mk("f12-last-script-range", b.os2, "donor", encRec{3, 10, subFormat12or13(12, []group{
 		{0x41, 0x5A, 1}, {0xE0100, 0xE01EF, 100}})}))
+	// subtables that map nothing at all (no group / only groups the parser drops)
+	out = append(out, mk("f12-empty", b.os2, "donor", encRec{3, 10, subFormat12or13(12, nil)}))
+	out = append(out, mk("f13-empty", b.os2, "donor", encRec{3, 10, subFormat12or13(13, nil)}))
+	out = append(out, mk("f12-only-dropped-groups", b.os2, "donor", encRec{3, 10, subFormat12or13(12, []group{
+		{0x110000, 0x11000F, 1}, {0x200000, 0x200010, 100}})}))
+	out = append(out, mk("f12-only-reversed-group", b.os2, "donor", encRec{3, 10, subFormat12or13(12, []group{
+		{0x60, 0x41, 1}})}))
 	out = append(out, mk("f13-many-to-one", b.os2, "donor", encRec{3, 10, subFormat12or13(13, []group{
 		{0x0, 0xFF, 1}, {0x100, 0x2FFFF, 2}})}))
 	// format 6 / 10
